@@ -68,6 +68,8 @@ def _chars_of(w, term):
     if is_call(term, ("builtin:set", "builtin:frozenset", "builtin:list", "builtin:tuple", "builtin:sorted")) and len(term[2]) == 1:
         return _chars_of(w, term[2][0])
     lit = term if is_lit(term) else (w.const_literal(term, None) if w is not None and hasattr(w, "const_literal") else None)
+    if lit is not None and lit != term and is_call(lit, ("builtin:set", "builtin:frozenset", "builtin:list", "builtin:tuple", "builtin:sorted")):
+        return _chars_of(w, lit)  # CONSTANT = frozenset("0123456789abcdef")
     if lit is not None and is_lit(lit) and lit[1] != "dict":
         vals = lit_const_values(lit)
         if vals is not None and all(isinstance(v, str) and len(v) == 1 for v in vals):
@@ -150,11 +152,17 @@ def atoms_for(w, facts, t):
     atoms, notes = [], []
     is_str = False
     fromhex = CallT("ext:bytes.fromhex", [t])
+    unhex = (CallT("ext:binascii.unhexlify", [t]), CallT("ext:binascii.a2b_hex", [t]))
     for f in facts:
         k = f[0]
         if k in ("ok", "notok") and f[1] == fromhex:
             atoms.append(SL.L_fromhex() if k == "ok" else notl(SL.L_fromhex()))
             is_str = is_str or k == "ok"
+        elif k in ("ok", "notok") and f[1] in unhex:
+            # binascii.unhexlify(str): pairs of ASCII hexadecimal digits, nothing else (no whitespace)
+            h = SL.sym(("chars", SL.HEXLOW | SL.HEXUP))
+            lang = SL.star(SL.cat(h, h))
+            atoms.append(lang if k == "ok" else notl(lang))
         elif k == "type" and f[1] == t and f[2] <= {"str"}:
             is_str = True
         elif k in ("truthy", "falsy"):
@@ -223,6 +231,12 @@ def atoms_for(w, facts, t):
                     break
         elif k == "nonempty" and f[1] == t:
             atoms.append(SL.L_len(">=", 1))
+        elif k in ("has", "nothas", "in", "notin") and (f[1] == t if k in ("has", "nothas") else f[2] == t):
+            # "<text>" in t / not in t  (a substring test when t is a str)
+            sub = f[2] if k in ("has", "nothas") else f[1]
+            if is_const(sub) and isinstance(sub[2], str) and sub[2]:
+                lang = SL.cat(SL.L_all(), *[SL.sym(("chars", frozenset(ch))) for ch in sub[2]], SL.L_all())
+                atoms.append(lang if k in ("has", "in") else notl(lang))
         elif k == "cmp":
             op, l, r = f[1], f[2], f[3]
             if _len_of(r, t) and _intc(l):
